@@ -57,7 +57,8 @@ def generate(seed, tier):
     consult = [(0.12, lambda r: ["consult", r.choice(CONSULT)])] if rng.random() < 0.4 else None
     ops = gen_dispatch_ops(rng, n_ops(spec), p_query=0.05, p_invalid=0.04, p_reset=0.04 if rng.random() < 0.5 else 0.0,
                            episodes=2 if rng.random() < 0.15 else 1, extra=consult)
-    return {"prop": PROP, "cfg": {"instance": spec, "filter": names, "filter_style": style, "observers": obs}, "ops": ops}
+    return {"prop": PROP, "cfg": {"instance": spec, "filter": names, "filter_style": style, "observers": obs,
+                                  "refused_first": rng.random() < 0.1}, "ops": ops}
 
 
 def compare_features(w, when):
@@ -148,8 +149,22 @@ class H(Hooks):
                 w.ctx.probe("recirculating_dispatch")
 
 
+def refused_request(w):
+    """An earlier refused observer request (unsupported feature type) must leave no trace."""
+    from job_shop_lib.dispatching.feature_observers import PositionInJobObserver, FeatureType
+
+    n = len(w.disp.subscribers)
+    try:
+        PositionInJobObserver(w.disp, feature_types=[FeatureType.JOBS])
+    except Exception:  # noqa: BLE001
+        w.ctx.fault("refused_observer_request")
+        # whatever it left behind shows in the feature values / dispatches that follow
+
+
 def execute(case, ctx):
     w = DWorld(case["cfg"], ctx)
+    if case["cfg"].get("refused_first"):
+        refused_request(w)
     if len([1 for s in case["cfg"]["observers"]]) != len(w.observers):
         return  # a constructor raised and was matched as a known finding
     compare_features(w, "initial state")
